@@ -32,7 +32,13 @@ class List(Expression):
         return not self.min_len or self.min_len == '0'
 
     def can_partially_succeed(self):
-        return not self.always_succeeds() and self.expr.can_partially_succeed()
+        if self.always_succeeds():
+            return False
+        if self.min_len == 1 or self.min_len == '1':
+            return self.expr.can_partially_succeed()
+        # With a larger (or symbolic) lower bound, the list can consume some
+        # elements before it finds out that there are too few of them.
+        return True
 
     def _compile(self, out, flags):
         if self.max_len == 0 or self.max_len == '0':
